@@ -21,6 +21,7 @@ KINDS = {
     'ForeignKey': 'ForeignKey',
     'OneToOne': 'OneToOneField',
     'ManyToMany': 'ManyToManyField',
+    'Auto': 'AutoField',          # explicit primary keys (C11 pk_rename)
 }
 REL_KINDS = ('ForeignKey', 'OneToOne', 'ManyToMany')
 FK_KINDS = ('ForeignKey', 'OneToOne')
@@ -780,6 +781,9 @@ def render_migration(dependencies, operations, initial=False):
                          'name=%s, field=%s%s),' % (
                              pyval(op['model'].lower()), pyval(f['name']),
                              text, default))
+        elif op['op'] == 'DeleteModel':
+            lines.append('        migrations.DeleteModel(name=%s),'
+                         % pyval(op['name']))
         else:
             raise ValueError(op['op'])
     lines.append('    ]')
